@@ -15,7 +15,7 @@ import (
 	"time"
 )
 
-var raceFrameRe = regexp.MustCompile(`^\s+(/repo/[^\s:]+\.go):(\d+)`)
+var raceFrameRe = regexp.MustCompile(`^\s+(/[^\s:]+\.go):(\d+)`)
 
 // raceScenario builds the session package's test binary with -race (harness overlay included) and
 // runs TestVerifRace for both roles. It returns one line per distinct data race in library code.
@@ -55,8 +55,8 @@ func raceScenario(ev *Evidence) ([]string, error) {
 		if strings.Contains(txt, "fatal error: concurrent map") {
 			l := "fatal error: concurrent map access"
 			for _, ln := range strings.Split(txt, "\n") {
-				if m := raceFrameRe.FindStringSubmatch(ln); m != nil && !strings.Contains(m[1], "zz_verif_") && !strings.HasSuffix(m[1], "_test.go") {
-					l += " at " + strings.TrimPrefix(m[1], "/repo/") + ":" + m[2]
+				if m := raceFrameRe.FindStringSubmatch(ln); m != nil && strings.HasPrefix(m[1], repoDir+"/") && !strings.Contains(m[1], "zz_verif_") && !strings.HasSuffix(m[1], "_test.go") {
+					l += " at " + strings.TrimPrefix(m[1], repoDir+"/") + ":" + m[2]
 					break
 				}
 			}
@@ -82,11 +82,11 @@ func raceScenario(ev *Evidence) ([]string, error) {
 				}
 				top := ""
 				for _, ln := range strings.Split(sec, "\n") {
-					if m := raceFrameRe.FindStringSubmatch(ln); m != nil {
+					if m := raceFrameRe.FindStringSubmatch(ln); m != nil && strings.HasPrefix(m[1], repoDir+"/") {
 						if strings.Contains(m[1], "zz_verif_") || strings.HasSuffix(m[1], "_test.go") {
 							continue
 						}
-						top = strings.TrimPrefix(m[1], "/repo/") + ":" + m[2]
+						top = strings.TrimPrefix(m[1], repoDir+"/") + ":" + m[2]
 						break
 					}
 				}
